@@ -245,44 +245,7 @@ def run(ctx):
     # orc_x86_compile emits its program in C-control-flow order.  A branch emitted BEFORE one of the paired
     # events (save_registers, set_mxcsr, restore_mxcsr, restore_registers) whose label is emitted AFTER it
     # (or the reverse) makes the generated code skip that half of the pair while still running the other half.
-    def order(a, b):
-        """'before' if a is emitted before b on every C path that emits both, 'after', or None (unordered)."""
-        pa, pb = xc.pos(a), xc.pos(b)
-        if pa is None or pb is None:
-            return None
-        if pa[0] == pb[0]:
-            return "before" if pa[1] < pb[1] else "after"
-        ab = pb[0] in xc.reachable_blocks(pa[0])
-        ba = pa[0] in xc.reachable_blocks(pb[0])
-        if ab and not ba:
-            return "before"
-        if ba and not ab:
-            return "after"
-        return None
-    events = []
-    for nm in ("orc_x86_save_registers", "orc_x86_set_mxcsr", "orc_x86_restore_mxcsr", "orc_x86_restore_registers"):
-        for c in xc.calls(nm):
-            events.append((nm, c))
-    branches = [(c, unparse(c.args()[2])) for c in xc.calls("orc_x86_emit_cpuinsn_branch")]
-    labels = {}
-    for c in xc.calls("orc_x86_emit_cpuinsn_label"):
-        labels.setdefault(unparse(c.args()[2]), []).append(c)
-    if len(branches) < 5 or len(labels) < 5 or len(events) < 2:      # a missing half of a pair is D4's finding, not an anchor failure
-        raise AnalysisBroken("orc_x86_compile: %d branches, %d labels, %d paired events found" % (len(branches), len(labels), len(events)))
-    for j, lab in branches:
-        tg = labels.get(lab)
-        if not tg:
-            continue            # label emitted by a helper (e.g. the inner loop emitter): not judged here
-        bad = []
-        for l in tg:
-            for nm, e in events:
-                oj, ol = order(j, e), order(l, e)
-                if oj and ol and oj != ol:
-                    bad.append("%s (branch emitted %s it, label %s it)" % (nm.replace("orc_x86_", ""), oj, ol))
-        rep.check(not bad, "D5-EMITTED-BRANCH", where(xc), "branch->%s" % lab,
-                  "branch and its label lie on the same side of every save/restore event",
-                  "the generated branch to %s crosses %s: the generated code skips one half of the pair and still runs the other "
-                  "(e.g. ldmxcsr from a slot that was never written, or an unbalanced stack adjustment)" % (lab, "; ".join(sorted(set(bad)))), line=j.line)
+    emitted_branch_pairs(db, rep)
     d6_used_recorded(db, rep)
 
     # D8: generated stores into ex->accumulators[] are exactly slot-sized: nothing is written past the executor (shared with C07 D6)
@@ -478,3 +441,49 @@ def d6_used_recorded(db, rep):
               "orc_compiler_allocate_register returns a register without recording it in used_regs[] (line %s), and the code that derives used_regs[] afterwards "
               "never marks the register kept in `%s` (assigned from the allocator in %s): if that is a callee-saved register the prologue does not save it and the "
               "caller's value is destroyed" % (uncovered[0].line, "`, `".join(missing), f0.name), line=c0.line)
+
+
+def emitted_branch_pairs(db, rep, rule="D5-EMITTED-BRANCH"):
+    """orc_x86_compile emits its program in C-control-flow order.  A branch emitted BEFORE one of the paired events
+    (save_registers, set_mxcsr, restore_mxcsr, restore_registers) whose label is emitted AFTER it (or the reverse) makes the
+    generated code skip that half of the pair while still running the other half - e.g. ldmxcsr from an executor slot that
+    this call never wrote (shared with C17: the thread's float mode then depends on what an earlier call left there)."""
+    xc = db.func("orc_x86_compile", "orcprogram-x86")
+    def order(a, b):
+        """'before' if a is emitted before b on every C path that emits both, 'after', or None (unordered)."""
+        pa, pb = xc.pos(a), xc.pos(b)
+        if pa is None or pb is None:
+            return None
+        if pa[0] == pb[0]:
+            return "before" if pa[1] < pb[1] else "after"
+        ab = pb[0] in xc.reachable_blocks(pa[0])
+        ba = pa[0] in xc.reachable_blocks(pb[0])
+        if ab and not ba:
+            return "before"
+        if ba and not ab:
+            return "after"
+        return None
+    events = []
+    for nm in ("orc_x86_save_registers", "orc_x86_set_mxcsr", "orc_x86_restore_mxcsr", "orc_x86_restore_registers"):
+        for c in xc.calls(nm):
+            events.append((nm, c))
+    branches = [(c, unparse(c.args()[2])) for c in xc.calls("orc_x86_emit_cpuinsn_branch")]
+    labels = {}
+    for c in xc.calls("orc_x86_emit_cpuinsn_label"):
+        labels.setdefault(unparse(c.args()[2]), []).append(c)
+    if len(branches) < 5 or len(labels) < 5 or len(events) < 2:      # a missing half of a pair is D4's finding, not an anchor failure
+        raise AnalysisBroken("orc_x86_compile: %d branches, %d labels, %d paired events found" % (len(branches), len(labels), len(events)))
+    for j, lab in branches:
+        tg = labels.get(lab)
+        if not tg:
+            continue            # label emitted by a helper (e.g. the inner loop emitter): not judged here
+        bad = []
+        for l in tg:
+            for nm, e in events:
+                oj, ol = order(j, e), order(l, e)
+                if oj and ol and oj != ol:
+                    bad.append("%s (branch emitted %s it, label %s it)" % (nm.replace("orc_x86_", ""), oj, ol))
+        rep.check(not bad, rule, where(xc), "branch->%s" % lab,
+                  "branch and its label lie on the same side of every save/restore event",
+                  "the generated branch to %s crosses %s: the generated code skips one half of the pair and still runs the other "
+                  "(e.g. ldmxcsr from a slot that was never written, or an unbalanced stack adjustment)" % (lab, "; ".join(sorted(set(bad)))), line=j.line)
